@@ -49,6 +49,9 @@ def _unquote_tla(line):
         return None
 
 
+MAX_VECTOR_BYTES = 2 << 30   # one generator run may not write more than 2 GiB of vectors (disk is limited)
+
+
 def tlc(module, cfg, *, workers=None, sink=None, simulate=None, depth=None, seed=None,
         timeout=1800, dfs=False, extra=(), files=(), xss=None, heap=None, keep=False, tag=None,
         coverage=False, expect_violation=False, defines=None, postcond_ok=True, young=None):
@@ -106,6 +109,7 @@ def tlc(module, cfg, *, workers=None, sink=None, simulate=None, depth=None, seed
         old = signal.signal(signal.SIGALRM, onalarm)
         signal.alarm(int(timeout))
         intrace = False
+        outbytes, toobig = 0, False
         try:
             for line in p.stdout:
                 if line.startswith('"'):
@@ -115,6 +119,11 @@ def tlc(module, cfg, *, workers=None, sink=None, simulate=None, depth=None, seed
                         if sink is not None:
                             sink.write(s)
                             sink.write("\n")
+                            outbytes += len(s) + 1
+                            if outbytes > MAX_VECTOR_BYTES:
+                                toobig = True
+                                p.kill()
+                                break
                         continue
                 line = line.rstrip("\n")
                 if len(res.log) < 4000:
@@ -140,6 +149,8 @@ def tlc(module, cfg, *, workers=None, sink=None, simulate=None, depth=None, seed
         res.rc = p.wait()
         if killed[0]:
             raise Infra("TLC timeout after %ss: %s %s" % (timeout, module, cfg))
+        if toobig:
+            raise Infra("TLC generator %s/%s wrote more than %d MB of vectors: its constants are out of bounds" % (module, cfg, MAX_VECTOR_BYTES >> 20))
         txt = "\n".join(res.log)
         if res.rc != 0 and res.generated == 0 and res.violation is None and attempt == 1 and \
                 ("Error occurred during initialization of VM" in txt or txt.strip() == ""):
